@@ -332,8 +332,8 @@ func (k Keeper) UpdateTokenPairERC20(ctx sdk.Context, erc20Addr, newERC20Addr co
 	newID := pair.GetID()
 	// Set the new pair
 	k.SetTokenPair(ctx, pair)
-	// Overwrite the value because id was changed
-	k.SetDenomMap(ctx, pair.Denoms[0], newID)
+	// Overwrite the values because id was changed (for every denomination the pair aggregates)
+	k.SetDenomsMap(ctx, pair.Denoms, newID)
 	// Add the new address
 	k.SetERC20Map(ctx, newERC20Addr, newID)
 	return pair, nil
